@@ -245,3 +245,12 @@ def run_cli_input(text, options, on_system, in_name='in.pdb', x_name='cg.pdb', t
         sys.argv = argv0
         os.chdir(cwd)
         shutil.rmtree(root, ignore_errors=True)
+
+
+def chain_numbers(ch):
+    """Residue numbers of a chain description in order of appearance, as build_input writes them."""
+    out = []
+    for _rec, _name, _resname, num, _el, _x, _y, _z in _chain_atoms(dict(ch, noh=False), 0, 0.0):
+        if not out or out[-1] != num:
+            out.append(num)
+    return out
